@@ -1191,8 +1191,8 @@ fn run_hread(c: &Case) -> Obs {
 /// fewer than 65536 bytes) and `seek` calls that goes on after errors, after failed seeks and after
 /// seeks onto bytes inside a frame that parse as a frame: obs = per call
 /// `<count | position sought | Err>@<position told>`, compared with NV.Bgzf.SeekBytes.hrs_run.
-/// Property side: no panic; a failing call never moves the told position backwards unless it is a
-/// seek (a failed seek leaves the previous block).
+/// Property side: no panic; as long as no seek has failed, a failing read never moves the told
+/// position backwards (a failed seek leaves the previous block and the new stream position).
 fn run_hrs(c: &Case) -> Obs {
     let bytes = nv::unhex(&c.args[0]);
     let ops: Vec<&str> = if c.args[1] == "_" { vec![] } else { c.args[1].split(',').collect() };
@@ -1200,6 +1200,7 @@ fn run_hrs(c: &Case) -> Obs {
     let mut obs = Vec::new();
     let mut verdict = Ok(());
     let mut nseek = 0;
+    let mut failed_seek = false;
     for (j, op) in ops.iter().enumerate() {
         let before = u64::from(r.virtual_position());
         let is_seek = op.starts_with('k');
@@ -1233,7 +1234,13 @@ fn run_hrs(c: &Case) -> Obs {
             verdict = Err(("damaged-file-history-panic".to_string(), format!("op#{j} {op}")));
             break;
         }
-        if let (true, false, Some(v)) = (g.starts_with("Err"), is_seek, vp) {
+        if is_seek && g.starts_with("Err") {
+            // a failed seek leaves Reader::position at the block offset sought and the previous
+            // block in place (c02_failed_seek_state): positions told later are relative to that
+            // offset, the rule below is about reads of a reader whose seeks succeeded
+            failed_seek = true;
+        }
+        if let (true, false, false, Some(v)) = (g.starts_with("Err"), is_seek, failed_seek, vp) {
             if u64::from(v) < before && verdict.is_ok() {
                 verdict = Err((
                     "failed-block-stays-current".to_string(),
@@ -1456,8 +1463,8 @@ fn faulty_script(level: u8, finish: &str, script: &str, faults: &str) -> FsRun {
     run
 }
 
-/// BSIZE walk of the sink, exactly as WriterTell.sink_file does it: the (offset, size) of the
-/// frames, if they take up all of the bytes
+/// BSIZE walk of the sink, exactly as WriterTellSink.frames_sane does it: the (offset, size) of the
+/// frames, if they take up all of the bytes and every ISIZE is <= 65536
 fn walk_frames(bytes: &[u8]) -> Option<Vec<(usize, usize)>> {
     let (mut i, mut t) = (0usize, Vec::new());
     loop {
@@ -1468,6 +1475,9 @@ fn walk_frames(bytes: &[u8]) -> Option<Vec<(usize, usize)>> {
         let bs = u16::from_le_bytes([bytes[i + 16], bytes[i + 17]]) as usize + 1;
         if bs < 26 || rem < bs {
             break;
+        }
+        if u32::from_le_bytes(bytes[i + bs - 4..i + bs].try_into().unwrap()) > 65536 {
+            return None;
         }
         t.push((i, bs));
         i += bs;
